@@ -3,6 +3,7 @@ CONSTANTS
   Threads = {1, 2}
   MaxCalls = 3
   Hint = FALSE
+  Axes <- AxesSmall
 INVARIANTS OnlyValidBuilt SameQuestionSameAnswer ElementsAgree AnsweredIffInRange FiniteNeverRejected ShapeOk BadBufferNeverOk KnotsReproduced PeriodicFunction
 PROPERTY Immutable
 CHECK_DEADLOCK FALSE
